@@ -104,7 +104,14 @@ def apply_stack(bib, value, fs, inplace, history=False):
     if value is not ABSENT:
         fields.append(M.Field("month", value))
     fields.append(M.Field("year", "1"))
-    lib = bib.Library([M.Entry("article", "k", fields), M.String("month", "jan"), M.ImplicitComment("march")])
+    # the entry's raw text never mentions the field under test (raw is what was parsed once, not what the entry holds now),
+    # and the library defines a @string whose KEY is spelled like the value (an unrelated macro)
+    blocks = [M.Entry("article", "k", fields, start_line=0, raw="@article{k, title = {May 12}, year = 1}"), M.String("month", "jan"),
+              M.ImplicitComment("march")]
+    if isinstance(value, str) and value:
+        blocks.append(M.String(value, "macro with that name"))
+    nblocks = len(blocks)
+    lib = bib.Library(blocks)
     inst = {}
 
     def the(f):
@@ -130,7 +137,7 @@ def apply_stack(bib, value, fs, inplace, history=False):
     except Exception as e:
         return type(e).__name__, None, True
     e = lib.entries[0] if lib.entries else None
-    if e is None or len(lib.blocks) != 3:
+    if e is None or len(lib.blocks) != nblocks:
         return "ok", "<entry lost>", False
     got = e.fields_dict["month"].value if "month" in e.fields_dict else ABSENT
     keys = [f.key for f in e.fields]
